@@ -30,6 +30,19 @@ class FakeProcess:
             return -9
         if self.exit_visible:
             return self.exit_code
+        if getattr(self.backend, "poll_race", False):
+            # the worker is asynchronous: it may write further lines, or finish, at the very moment its status is read
+            t = self.backend.tape
+            what = t.weighted([(6, "none"), (1, "finish"), (1, "some")])
+            remaining = len(self.lines) - self.written
+            if what == "some" and remaining > 0:
+                self.backend._write_line(self)
+            elif what == "finish":
+                for _ in range(remaining):
+                    self.backend._write_line(self)
+                self.exit_visible = True
+                self.backend.rec.add("script.exit", trial_id=self.trial_id, run=self.run_index, code=self.exit_code, during_status_read=True)
+                return self.exit_code
         return None
 
     def kill(self):
@@ -57,7 +70,7 @@ def make_backend_class():
     from syne_tune.backend.local_backend import LocalBackend
 
     class ScriptedLocalBackend(LocalBackend):
-        def __init__(self, tape, rec, script_fn, delete_checkpoints=False, allow_late_lines=True, batch_max=4, external_stop=False):
+        def __init__(self, tape, rec, script_fn, delete_checkpoints=False, allow_late_lines=True, batch_max=4, external_stop=False, poll_race=False):
             super().__init__(entry_point=__file__, delete_checkpoints=delete_checkpoints, rotate_gpus=False)
             self.tape = tape
             self.rec = rec
@@ -65,6 +78,7 @@ def make_backend_class():
             self.allow_late_lines = allow_late_lines
             self.batch_max = batch_max
             self.external_stop = external_stop
+            self.poll_race = poll_race
             self.procs = {}  # trial -> list of FakeProcess (one per run)
             self.ts_counter = 1000.0
             self.paused_level = {}
@@ -178,6 +192,7 @@ def run_scripted(
     results_update_interval=1e9,
     outside_time=False,
     external_stop=False,
+    poll_race=False,
 ):
     from syne_tune import Tuner
     from syne_tune.results_callback import StoreResultsCallback
@@ -187,7 +202,7 @@ def run_scripted(
     driver_sim.tmp_root()
     driver_sim.clean_tmp()
     rec = driver_sim.Recorder()
-    be = backend_class()(t, rec, script_fn, delete_checkpoints=delete_checkpoints, allow_late_lines=allow_late_lines, external_stop=external_stop)
+    be = backend_class()(t, rec, script_fn, delete_checkpoints=delete_checkpoints, allow_late_lines=allow_late_lines, external_stop=external_stop, poll_race=poll_race)
     driver_sim.instrument_scheduler(scheduler, rec)
     driver_sim.instrument_backend(be, rec, sim_time=None)
     store = StoreResultsCallback()
